@@ -21,16 +21,20 @@ rows = []
 for s, prop, rc, msg in results:
     mp = os.path.join(ROOT, "seeded", s, "meta.json")
     meta = json.load(open(mp))
+    if meta.get("superseded_by"):
+        rows.append((s, prop, "n/a", (meta.get("summary") or "")[:110].replace("|", "/").replace("\n", " "), "no longer a breaking change: " + meta["superseded_by"][:150].replace("|", "/")))
+        continue
     meta["detection"] = dict(check=prop, tier=tier, exit_code=rc, caught=(rc == 1), first_line=msg[:400],
                              how="tools/seedrun.sh: patch applied to a scratch copy of /repo (VERIF_REPO), never to /repo itself")
     json.dump(meta, open(mp, "w"), indent=1)
     rows.append((s, prop, "caught" if rc == 1 else ("MISSED" if rc == 0 else "rc=%d" % rc), (meta.get("summary") or "")[:110].replace("|", "/").replace("\n", " "), msg[:140].replace("|", "/")))
 caught = sum(1 for r in rows if r[2] == "caught")
+live = [r for r in rows if r[2] != "n/a"]
 with open(os.path.join(ROOT, "seeded", "RESULTS.md"), "w") as f:
-    f.write("# Seeded changes vs. the %s tier of the property's own check\n\n%d of %d caught.\n\n| seed | check | result | what the change is | first line of the check's report |\n|---|---|---|---|---|\n" % (tier, caught, len(rows)))
+    f.write("# Seeded changes vs. the %s tier of the property's own check\n\n%d of %d caught (%d seeded changes neutralised by a later repair are listed as n/a).\n\n| seed | check | result | what the change is | first line of the check's report |\n|---|---|---|---|---|\n" % (tier, caught, len(live), len(rows) - len(live)))
     for r in rows:
         f.write("| %s | %s | %s | %s | %s |\n" % r)
-print("%d of %d caught" % (caught, len(rows)))
+print("%d of %d caught" % (caught, len(live)))
 for r in rows:
-    if r[2] != "caught":
+    if r[2] not in ("caught", "n/a"):
         print(r)
